@@ -355,7 +355,7 @@ def step (V : Variant) (s : State) : Ev → Option State
   | .A => stepA V s
   | .F => if s.armed then none else some { s with armed := true, faulted := true }
   | .L j => if s.submitted.isEmpty then some { s with pre := s.pre ++ [j] } else none
-  | .O j g => some { s with gone := if g then j :: s.gone else s.gone.erase j }
+  | .O j g => some { s with gone := if g then j :: s.gone else s.gone.filter (fun x => x != j) }
 
 def run (V : Variant) : State → List Ev → State
   | s, [] => s
